@@ -77,7 +77,7 @@ def ref_parts(form) -> tuple[str, str, str]:
         path, fn, ext = form
     if not ext and '.' in fn:
         fn, ext = fn.rsplit('.', 1)
-    path = posixpath.normpath(path).replace('\\', '/').rstrip('/')
+    path = posixpath.normpath(path.replace('\\', '/')).replace('\\', '/').rstrip('/')
     if path == '.':
         path = ''
     return path, fn, ext
@@ -152,10 +152,12 @@ def rand_size(rng: random.Random, limit, big: bool) -> int:
     return rng.choice(SIZES)
 
 
-def gen_case(rng: random.Random, big: bool = False, nops: int | None = None) -> dict:
+def gen_case(rng: random.Random, big: bool = False, nops: int | None = None, small: bool = False) -> dict:
     cfg = {'dir': rng.random() < 0.75, 'limit': rng.choice(LIMITS)}
     if big:
         cfg['limit'] = rng.choice([None, 0, 1024, 70000, 65535])
+    if small:       # for in-Coq evaluation: sizes stay around small limits
+        cfg['limit'] = rng.choice([None, 0, 1, 4, 8, 64, 64, 1024])
     n = nops if nops is not None else (rng.choice([2, 3, 4]) if big else rng.choice([3, 5, 8, 12, 18]))
     ops: list[tuple] = []
     used: list[str] = []
@@ -167,6 +169,8 @@ def gen_case(rng: random.Random, big: bool = False, nops: int | None = None) -> 
         if rng.random() < 0.03:
             idx = rng.choice([32767, 32768, 65535, 65536, 100000])
         data = (rng.choice([0, 1, 2, 3]), rand_size(rng, cfg['limit'], big))
+        if small and data[1] > 130 and rng.random() < 0.85:
+            data = (data[0], data[1] % 131)
         if r < 0.34:
             ops.append(('add', name, form, data, idx)); used.append(name)
         elif r < 0.50:
@@ -540,11 +544,11 @@ def c_dg(d) -> str:
 def corr_machine(ck: Ck) -> None:
     """SM/Vpk.v run on the same histories as the implementation: per-op code and summary, final per-file digests,
     byte-exact directory file and archives (length + CRC32)."""
-    n_small = ck.budget(220, 4000)
-    n_big = ck.budget(4, 40)
+    n_small = ck.budget(150, 3000)
+    n_big = ck.budget(3, 40)
     cases = [c for c in CORPUS]
     for _ in range(n_small):
-        cases.append(gen_case(ck.rng))
+        cases.append(gen_case(ck.rng, small=True))
     for _ in range(n_big):
         cases.append(gen_case(ck.rng, big=True, nops=2))
     lits = []
@@ -705,8 +709,8 @@ def corr_names(ck: Ck) -> None:
     for lo in range(0, len(lits), 500):
         part = lits[lo:lo + 500]
         vals = ck.coq_eval(IMPORTS + ['SV.Fmt.VpkName'], [
-            'bad_idx (fun c : nameform * key * bytes => key_eqb (file_parts posix_normpath (fst (fst c))) (snd (fst c)) '
-            f'&& bytes_eqb (join_parts (snd (fst c))) (snd c)) 0 {coq_list(part)}'], name='vpknames', preamble=PRE)
+            'bad_idx (fun c : nameform * key * bytes => andb (key_eqb (file_parts posix_normpath (fst (fst c))) (snd (fst c))) '
+            f'(bytes_eqb (join_parts (snd (fst c))) (snd c))) 0 {coq_list(part)}'], name='vpknames', preamble=PRE)
         if vals is None:
             ck.obligation('correspondence:names', False, 'model could not be evaluated')
             ck.tie_broken.append('correspondence VPK names: model evaluation failed')
@@ -744,16 +748,16 @@ def run(ck: Ck) -> None:
             'format_constants_in_range': 'dcfg_ok g_dcfg',
             'reader_and_writer_use_the_same_dir_sentinel': 'N.eqb g_dir_index_read g_dir_index_write',
             'reader_and_writer_use_the_same_terminator': 'N.eqb g_term_read g_term_write',
-            'entry_layout_written_is_IHHIIH': 'nlist_eqb g_entry_widths_write [4;2;2;4;4;2]%N',
-            'entry_layout_read_is_IHHIIH': 'nlist_eqb g_entry_widths_read [4;2;2;4;4;2]%N',
+            'entry_layout_written_is_IHHIIH': 'nlist_eqb g_entry_widths_write entry_widths_expected',
+            'entry_layout_read_is_IHHIIH': 'nlist_eqb g_entry_widths_read entry_widths_expected',
             'entry_field_order_matches': 'g_entry_fields_match',
             'zero_arch_len_resets_offset': 'g_zero_len_resets_offset',
             'empty_string_is_a_space_on_both_sides': 'g_blank_is_space',
-            'preload_capped_at_16_bits': 'g_preload_capped && match g_max_preload with Some m => N.leb m 65535 | None => false end',
+            'preload_capped_at_16_bits': 'andb g_preload_capped (match g_max_preload with Some m => N.leb m 65535 | None => false end)',
             'dir_tail_goes_to_footer_data': 'g_tail_to_footer',
             'archive_index_validated': 'g_chk_idx',
             'unrepresentable_names_rejected': 'g_chk_name',
-            'instance_satisfies_theorem_premises': 'vcfg_ok (g_vcfg true (Some 1024)) && vcfg_ok (g_vcfg false None)',
+            'instance_satisfies_theorem_premises': 'andb (vcfg_ok (g_vcfg true (Some 1024%N))) (vcfg_ok (g_vcfg false None))',
         }, name='vpkinst')
         corr_machine(ck)
         corr_decode(ck)
